@@ -57,6 +57,8 @@ extern crate windows;
 pub mod ipc;
 pub mod platform;
 pub mod router;
+#[cfg(ipc_channel_verif)]
+pub mod verif;
 
 #[cfg(test)]
 mod test;
